@@ -217,7 +217,8 @@ func runEnum(ec enumCase) vrun.Result {
 // and fail the pending Write; reads and control pings must keep working while a Write is stalled.
 
 type stallCase struct {
-	Kind     string `json:"kind"` // close-behind-stalled-write | traffic-behind-stalled-write
+	Kind     string `json:"kind"` // close-behind-stalled-write | traffic-behind-stalled-write | read-fails-behind-stalled-write
+	TailFail bool   `json:"peer_unreachable_after_the_redial,omitempty"`
 	Pings    int    `json:"pings,omitempty"`
 	Data     int    `json:"data_messages,omitempty"`
 	AfterRed bool   `json:"on_a_redialled_connection"`
@@ -229,6 +230,11 @@ func TestC18StalledWrite(t *testing.T) {
 	for _, red := range []bool{false, true} {
 		for _, tid := range []bool{false, true} {
 			cases = append(cases, stallCase{Kind: "close-behind-stalled-write", AfterRed: red, GivenTID: tid})
+			for _, tf := range []bool{false, true} {
+				for _, data := range []int{0, 3} {
+					cases = append(cases, stallCase{Kind: "read-fails-behind-stalled-write", Data: data, TailFail: tf, AfterRed: red, GivenTID: tid})
+				}
+			}
 			for _, pings := range []int{1, 8, 9, 12, 40} {
 				for _, data := range []int{0, 3} {
 					cases = append(cases, stallCase{Kind: "traffic-behind-stalled-write", Pings: pings, Data: data, AfterRed: red, GivenTID: tid})
@@ -240,6 +246,7 @@ func TestC18StalledWrite(t *testing.T) {
 		Rule: "virtual time; the underlying connection's Write blocks (peer not draining) while one library Write is in progress - on the first or on a redialled connection. " +
 			"(close) Close is called: it returns, the pending Write and the pending Read return with an error. " +
 			"(traffic) the peer sends 1/8/9/12/40 control pings and 0/3 data messages while the Write is stalled: the data messages are returned by Read meanwhile; after the stall is released the pending Write returns nil and every ping has been answered by a pong. " +
+			"(read-fails) the connection's Read fails while the Write is stalled inside it (both loops see one breakage, the read side first): one redial, the pending Write returns nil and is accepted by the new connection, 0/3 messages the peer sends on the new connection are read, and the new connection - on which nothing failed - is not closed by the library, with the peer reachable or unreachable for further dials. " +
 			"The grid is enumerated completely. Non-trivial: the stall was reached with a Write pending. Distinct: the case tuple.",
 		Assumptions: vtAssumptions}
 	vrun.Loop(t, meta, 0, func(c *vrun.Case) vrun.Result {
@@ -277,8 +284,25 @@ func runStall(sc stallCase) vrun.Result {
 	}()
 	settle(time.Second)
 	reached := !pending.Load()
-	sig := fmt.Sprintf("%s|%d|%d|%v|%v", sc.Kind, sc.Pings, sc.Data, sc.AfterRed, sc.GivenTID)
+	sig := fmt.Sprintf("%s|%d|%d|%v|%v|%v", sc.Kind, sc.Pings, sc.Data, sc.AfterRed, sc.GivenTID, sc.TailFail)
 	switch sc.Kind {
+	case "read-fails-behind-stalled-write":
+		// the next dial succeeds at once (no sleeping redial while the other loop waits for the transport mutex); what
+		// comes after it is the peer's matter
+		s.w.push(dialStep{CloseNotice: time.Minute})
+		s.w.setTail(sc.TailFail, time.Minute)
+		cur.failReadNow()
+		settle(0)
+		settle(time.Second)
+		if nw := s.w.live(); nw != nil && nw != cur {
+			for i := 0; i < sc.Data; i++ {
+				nw.feed(fmt.Sprintf("after-d-%02d", i))
+			}
+		}
+		settle(vBound / 2)
+		if !pending.Load() && s.rec.situation() == "live" {
+			s.add(finding{5, clRedial, "write-never-returns:no-close-no-exhaustion", map[string]any{"note": "the Write that was inside the broken connection's Write when its Read failed is still pending", "dials": s.w.snap().Dials}})
+		}
 	case "close-behind-stalled-write":
 		if !s.issue(func() { s.closeNow() }) {
 			s.add(finding{6, clBlock, "close-blocks-behind-stalled-write", map[string]any{"virtual_wait": vBound.String()}})
